@@ -874,4 +874,539 @@ Section WithEnv.
     rewrite bv_smod_den by side. rewrite !popi_den. reflexivity.
   Qed.
 
+
+  (* ================================================================ exp *)
+  Lemma mul_mod_congr m x x' y y' : 0 < m -> x mod m = x' mod m -> y mod m = y' mod m ->
+    (x * y) mod m = (x' * y') mod m.
+  Proof.
+    intros Hm Hx Hy. rewrite (Z.mul_mod x y), (Z.mul_mod x' y') by lia. rewrite Hx, Hy. reflexivity.
+  Qed.
+
+  Lemma modpow_pos_spec a p m : 0 < m -> modpow_pos a p m = (a ^ Z.pos p) mod m.
+  Proof.
+    intros Hm. induction p as [q IH|q IH|]; cbn [modpow_pos].
+    - rewrite Pos2Z.inj_xI, Z.pow_add_r, Z.pow_1_r, Z.pow_twice_r by lia. rewrite IH.
+      apply mul_mod_congr; [assumption| |reflexivity].
+      apply mul_mod_congr; try assumption; apply Z.mod_mod; lia.
+    - rewrite Pos2Z.inj_xO, Z.pow_twice_r. rewrite IH.
+      apply mul_mod_congr; try assumption; apply Z.mod_mod; lia.
+    - rewrite Z.pow_1_r. reflexivity.
+  Qed.
+
+  Lemma modpow_spec a e m : 0 < m -> 0 <= e -> modpow a e m = (a ^ e) mod m.
+  Proof.
+    intros Hm He. destruct e as [|p|p]; cbn [modpow]; [reflexivity|apply modpow_pos_spec; assumption|lia].
+  Qed.
+
+  Lemma evm_exp_math_eq a e : 0 <= e -> evm_exp a e = evm_exp_math a e.
+  Proof. intros; unfold evm_exp, evm_exp_math. apply modpow_spec; [reflexivity|assumption]. Qed.
+
+  Lemma exp_loop_den n mabs self k : 0 < n -> wfn n self -> forall acc, wfn n acc ->
+    den (exp_loop n mabs self acc k) = (den self ^ Z.of_nat k * den acc) mod 2 ^ n.
+  Proof.
+    intros Hn Hs. pose proof (pow2_pos n ltac:(lia)) as HP.
+    induction k as [|k IH]; intros acc Hacc; cbn [exp_loop].
+    - rewrite Z.pow_0_r, Z.mul_1_l. unfold bvwf in Hacc. symmetry; apply Z.mod_small; assumption.
+    - rewrite IH by (apply bv_mul_wf; assumption).
+      rewrite bv_mul_den by assumption. rewrite Z.mul_mod_idemp_r by lia.
+      rewrite Nat2Z.inj_succ, Z.pow_succ_r by lia. f_equal; ring.
+  Qed.
+
+  Lemma exp_concrete_path n e m s x y : y <> 0 -> y <> 1 ->
+    bv_exp n e m s (Cv x) (Cv y) = Ok (mk_int n (x ^ y)).
+  Proof.
+    intros H0 H1. unfold bv_exp, g_exp_1, g_exp_2.
+    destruct (Z.eqb_spec y 0); [contradiction|]. destruct (Z.eqb_spec y 1); [contradiction|]. reflexivity.
+  Qed.
+
+  Lemma bv_exp_den n sebc a b : 0 < n -> wfn n a -> wfn n b ->
+    exists r, bv_exp n true true sebc a b = Ok r /\ den r = (den a ^ den b) mod 2 ^ n.
+  Proof.
+    intros Hn Ha Hb. pose proof (pow2_pos n ltac:(lia)) as HP. unfold bvwf in *.
+    assert (Hslow : den (Sv (TUF Fexp n (z3_of n a) (z3_of n b))) = (den a ^ den b) mod 2 ^ n).
+    { cbn [bv_den eval uf_eval]. rewrite !z3_of_den by assumption. apply modpow_spec; lia. }
+    unfold bv_exp. destruct b as [y|u]; [|eexists; split; [reflexivity|exact Hslow]].
+    cbn [bv_den] in *. unfold g_exp_1, g_exp_2, g_exp_3.
+    destruct (Z.eqb_spec y 0) as [->|Hy0].
+    { eexists; split; [reflexivity|]. rewrite mk_int_den by lia. rewrite Z.pow_0_r. reflexivity. }
+    destruct (Z.eqb_spec y 1) as [->|Hy1].
+    { eexists; split; [reflexivity|]. rewrite Z.pow_1_r. symmetry; apply Z.mod_small; assumption. }
+    destruct a as [x|t].
+    - eexists; split; [reflexivity|]. apply mk_int_den; lia.
+    - destruct (y <=? sebc); (eexists; split; [reflexivity|]); [|exact Hslow].
+      rewrite exp_loop_den by assumption. rewrite Z2Nat.id by lia.
+      replace (den (Sv t) ^ (y - 1) * den (Sv t)) with (den (Sv t) ^ y); [reflexivity|].
+      replace y with (Z.succ (y - 1)) at 1 by lia. rewrite Z.pow_succ_r by lia. ring.
+  Qed.
+
+  Lemma run_exp sebc a b : wf ev eb a -> wf ev eb b ->
+    exists r, run2 sebc EXP a b = Ok r /\ dn r = evm_exp (dn a) (dn b).
+  Proof.
+    intros Ha Hb. cbn [run2].
+    destruct (bv_exp_den 256 sebc (popi a) (popi b)) as [r [E D]]; try side.
+    rewrite E. eexists; split; [reflexivity|]. cbn [denote]. rewrite D, !popi_den.
+    unfold evm_exp. symmetry. apply modpow_spec; [reflexivity|].
+    pose proof (popi_wf b Hb) as H. unfold bvwf in H. rewrite popi_den in H. lia.
+  Qed.
+
+  (* ================================================================ addmod / mulmod *)
+  Lemma resize_up_wf n n2 a : 0 <= n -> n < n2 -> wfn n a -> wfn n2 (bv_resize n n2 a).
+  Proof.
+    intros Hn Hlt Ha. unfold bvwf. rewrite resize_up_den by assumption.
+    unfold bvwf in Ha. assert (2 ^ n <= 2 ^ n2) by (apply Z.pow_le_mono_r; lia). lia.
+  Qed.
+
+  Definition all_con_zero (a b m : bv) : bool :=
+    match a, b, m with Cv _, Cv _, Cv z => z =? 0 | _, _, _ => false end.
+
+  Lemma bv_addmod_den n a b m : 0 < n -> wfn n a -> wfn n b -> wfn n m ->
+    all_con_zero a b m = false ->
+    exists r, bv_addmod n true a b m = Ok r /\
+      den r = if den m =? 0 then 0 else (den a + den b) mod den m.
+  Proof.
+    intros Hn Ha Hb Hm Hz. pose proof (pow2_pos n ltac:(lia)) as HP.
+    assert (Hgen : den (bv_resize (n + 8) n
+              (bv_mod (n + 8) true (bv_add (n + 8) (bv_resize n (n + 8) a) (bv_resize n (n + 8) b))
+                 (bv_resize n (n + 8) m))) = if den m =? 0 then 0 else (den a + den b) mod den m).
+    { pose proof (resize_up_wf n (n + 8) a ltac:(lia) ltac:(lia) Ha) as Wa.
+      pose proof (resize_up_wf n (n + 8) b ltac:(lia) ltac:(lia) Hb) as Wb.
+      pose proof (resize_up_wf n (n + 8) m ltac:(lia) ltac:(lia) Hm) as Wm.
+      assert (H2 : 2 ^ (n + 8) = 2 ^ n * 256) by (rewrite Z.pow_add_r by lia; reflexivity).
+      assert (W1 : wfn (n + 8) (bv_add (n + 8) (bv_resize n (n + 8) a) (bv_resize n (n + 8) b))).
+      { unfold bvwf. rewrite bv_add_den by (assumption || lia). apply Z.mod_pos_bound. lia. }
+      assert (D1 : den (bv_add (n + 8) (bv_resize n (n + 8) a) (bv_resize n (n + 8) b)) = den a + den b).
+      { rewrite bv_add_den by (assumption || lia). rewrite !resize_up_den by (assumption || lia).
+        unfold bvwf in Ha, Hb. apply Z.mod_small. lia. }
+      assert (D2 : den (bv_mod (n + 8) true (bv_add (n + 8) (bv_resize n (n + 8) a) (bv_resize n (n + 8) b))
+                 (bv_resize n (n + 8) m)) = if den m =? 0 then 0 else (den a + den b) mod den m).
+      { rewrite bv_mod_den by (assumption || lia). rewrite D1, resize_up_den by (assumption || lia). reflexivity. }
+      rewrite resize_down_den; [exact D2|lia|lia|].
+      rewrite D2. unfold bvwf in Hm. destruct (Z.eqb_spec (den m) 0); [lia|].
+      pose proof (Z.mod_pos_bound (den a + den b) (den m) ltac:(lia)). lia. }
+    destruct a as [x|t], b as [y|u], m as [z|v];
+      try (eexists; split; [reflexivity|exact Hgen]).
+    cbn [all_con_zero] in Hz. cbn [bv_addmod]. rewrite Hz.
+    eexists; split; [reflexivity|]. unfold bvwf in *; cbn [bv_den] in *. rewrite Hz.
+    rewrite mk_int_den by lia. apply Z.mod_small.
+    pose proof (Z.mod_pos_bound (x + y) z ltac:(lia)). lia.
+  Qed.
+
+  Lemma bv_mulmod_den n a b m : 0 < n -> wfn n a -> wfn n b -> wfn n m ->
+    all_con_zero a b m = false ->
+    exists r, bv_mulmod n true true a b m = Ok r /\
+      den r = if den m =? 0 then 0 else (den a * den b) mod den m.
+  Proof.
+    intros Hn Ha Hb Hm Hz. pose proof (pow2_pos n ltac:(lia)) as HP.
+    assert (Hgen : den (bv_resize (n * 2) n
+              (bv_mod (n * 2) true (bv_mul (n * 2) true (bv_resize n (n * 2) a) (bv_resize n (n * 2) b))
+                 (bv_resize n (n * 2) m))) = if den m =? 0 then 0 else (den a * den b) mod den m).
+    { pose proof (resize_up_wf n (n * 2) a ltac:(lia) ltac:(lia) Ha) as Wa.
+      pose proof (resize_up_wf n (n * 2) b ltac:(lia) ltac:(lia) Hb) as Wb.
+      pose proof (resize_up_wf n (n * 2) m ltac:(lia) ltac:(lia) Hm) as Wm.
+      assert (H2 : 2 ^ (n * 2) = 2 ^ n * 2 ^ n).
+      { replace (n * 2) with (n + n) by lia. apply Z.pow_add_r; lia. }
+      assert (W1 : wfn (n * 2) (bv_mul (n * 2) true (bv_resize n (n * 2) a) (bv_resize n (n * 2) b))).
+      { apply bv_mul_wf; (assumption || lia). }
+      assert (D1 : den (bv_mul (n * 2) true (bv_resize n (n * 2) a) (bv_resize n (n * 2) b)) = den a * den b).
+      { rewrite bv_mul_den by (assumption || lia). rewrite !resize_up_den by (assumption || lia).
+        unfold bvwf in Ha, Hb. apply Z.mod_small. rewrite H2. nia. }
+      assert (D2 : den (bv_mod (n * 2) true (bv_mul (n * 2) true (bv_resize n (n * 2) a) (bv_resize n (n * 2) b))
+                 (bv_resize n (n * 2) m)) = if den m =? 0 then 0 else (den a * den b) mod den m).
+      { rewrite bv_mod_den by (assumption || lia). rewrite D1, resize_up_den by (assumption || lia). reflexivity. }
+      rewrite resize_down_den; [exact D2|lia|lia|].
+      rewrite D2. unfold bvwf in Hm. destruct (Z.eqb_spec (den m) 0); [lia|].
+      pose proof (Z.mod_pos_bound (den a * den b) (den m) ltac:(lia)). lia. }
+    destruct a as [x|t], b as [y|u], m as [z|v];
+      try (eexists; split; [reflexivity|exact Hgen]).
+    cbn [all_con_zero] in Hz. cbn [bv_mulmod]. rewrite Hz.
+    eexists; split; [reflexivity|]. unfold bvwf in *; cbn [bv_den] in *. rewrite Hz.
+    rewrite mk_int_den by lia. apply Z.mod_small.
+    pose proof (Z.mod_pos_bound (x * y) z ltac:(lia)). lia.
+  Qed.
+
+  Lemma run_addmod a b c : wf ev eb a -> wf ev eb b -> wf ev eb c ->
+    all_con_zero (popi a) (popi b) (popi c) = false ->
+    exists r, run3 ADDMOD a b c = Ok r /\ dn r = evm_addmod (dn a) (dn b) (dn c).
+  Proof.
+    intros Ha Hb Hc Hz. cbn [run3].
+    destruct (bv_addmod_den 256 (popi a) (popi b) (popi c)) as [r [E D]]; try side.
+    rewrite E. eexists; split; [reflexivity|]. cbn [denote]. rewrite D, !popi_den. reflexivity.
+  Qed.
+
+  Lemma run_mulmod a b c : wf ev eb a -> wf ev eb b -> wf ev eb c ->
+    all_con_zero (popi a) (popi b) (popi c) = false ->
+    exists r, run3 MULMOD a b c = Ok r /\ dn r = evm_mulmod (dn a) (dn b) (dn c).
+  Proof.
+    intros Ha Hb Hc Hz. cbn [run3].
+    destruct (bv_mulmod_den 256 (popi a) (popi b) (popi c)) as [r [E D]]; try side.
+    rewrite E. eexists; split; [reflexivity|]. cbn [denote]. rewrite D, !popi_den. reflexivity.
+  Qed.
+
+  Lemma run_modzero_crash o a b c : all_con_zero (popi a) (popi b) (popi c) = true ->
+    run3 o a b c = Err EZeroDivision.
+  Proof.
+    intros Hz. unfold all_con_zero in Hz.
+    destruct (popi a) as [x|] eqn:Ea; [|discriminate]. destruct (popi b) as [y|] eqn:Eb; [|discriminate].
+    destruct (popi c) as [z|] eqn:Ec; [|discriminate].
+    destruct o; cbn [run3]; rewrite Ea, Eb, Ec; cbn [bv_addmod bv_mulmod]; rewrite Hz; reflexivity.
+  Qed.
+
+  (* ================================================================ SEVM.arith path constraints *)
+  Lemma arith_axioms_valid o a b c : wf ev eb a -> wf ev eb b ->
+    In c (arith_axioms o a b) -> beval ev eb c = true.
+  Proof.
+    intros Ha Hb Hin.
+    pose proof (popi_wf a Ha) as Wa. pose proof (popi_wf b Hb) as Wb.
+    destruct o; cbn [arith_axioms] in Hin; try contradiction.
+    - pose proof (bv_div_den 256 (popi a) (popi b) ltac:(lia) Wa Wb) as D.
+      destruct (bv_div 256 true (popi a) (popi b)) as [v|t]; [contradiction|].
+      destruct Hin as [<-|[]].
+      change (bvule (eval ev eb t) (eval ev eb (z3_of 256 (popi a))) = true).
+      rewrite z3_of_den by assumption. cbn [bv_den] in D. rewrite D. unfold bvule. apply Z.leb_le.
+      unfold bvwf in Wa, Wb. destruct (Z.eqb_spec (den (popi b)) 0); [lia|].
+      pose proof (div_range (den (popi a)) (den (popi b)) (den (popi a) + 1) ltac:(lia) ltac:(lia)). lia.
+    - pose proof (bv_mod_den 256 (popi a) (popi b) ltac:(lia) Wa Wb) as D.
+      destruct (bv_mod 256 true (popi a) (popi b)) as [v|t]; [contradiction|].
+      destruct Hin as [<-|[]].
+      change (bvule (eval ev eb t) (eval ev eb (z3_of 256 (popi b))) = true).
+      rewrite z3_of_den by assumption. cbn [bv_den] in D. rewrite D. unfold bvule. apply Z.leb_le.
+      unfold bvwf in Wa, Wb. destruct (Z.eqb_spec (den (popi b)) 0); [lia|].
+      pose proof (Z.mod_pos_bound (den (popi a)) (den (popi b)) ltac:(lia)). lia.
+  Qed.
+
+
+  (* ================================================================ representation independence *)
+  Definition spec2 (o : op) : Z -> Z -> Z :=
+    match o with
+    | ADD => evm_add | MUL => evm_mul | SUB => evm_sub | DIV => evm_div | SDIV => evm_sdiv
+    | MOD => evm_mod | SMOD => evm_smod | EXP => evm_exp | SIGNEXTEND => evm_signextend
+    | LT => evm_lt | GT => evm_gt | SLT => evm_slt | SGT => evm_sgt | EQ => evm_eq
+    | AND => evm_and | OR => evm_or | XOR => evm_xor | BYTE => evm_byte
+    | SHL => evm_shl | SHR => evm_shr | SAR => evm_sar
+    end.
+
+  Ltac use_run L E :=
+    let r' := fresh "r'" in let E' := fresh "E'" in let D := fresh "D" in
+    destruct L as [r' [E' D]]; rewrite E' in E; injection E as <-; exact D.
+
+  Lemma run2_spec sebc o a b r : wf ev eb a -> wf ev eb b ->
+    run2 sebc o a b = Ok r -> dn r = spec2 o (dn a) (dn b).
+  Proof.
+    intros Ha Hb E. destruct o; cbn [spec2].
+    - use_run (run_add sebc a b Ha Hb) E.
+    - use_run (run_mul sebc a b Ha Hb) E.
+    - use_run (run_sub sebc a b Ha Hb) E.
+    - use_run (run_div sebc a b Ha Hb) E.
+    - use_run (run_sdiv sebc a b Ha Hb) E.
+    - use_run (run_mod sebc a b Ha Hb) E.
+    - use_run (run_smod sebc a b Ha Hb) E.
+    - use_run (run_exp sebc a b Ha Hb) E.
+    - destruct (popi a) as [s|t] eqn:P.
+      + use_run (run_signextend sebc a b s Ha Hb P) E.
+      + rewrite (run_signextend_symbolic sebc a b t P) in E. discriminate.
+    - use_run (run_lt sebc a b Ha Hb) E.
+    - use_run (run_gt sebc a b Ha Hb) E.
+    - use_run (run_slt sebc a b Ha Hb) E.
+    - use_run (run_sgt sebc a b Ha Hb) E.
+    - use_run (run_eq sebc a b Ha Hb) E.
+    - use_run (run_and sebc a b Ha Hb) E.
+    - use_run (run_or sebc a b Ha Hb) E.
+    - use_run (run_xor sebc a b Ha Hb) E.
+    - use_run (run_byte sebc a b Ha Hb) E.
+    - use_run (run_shl sebc a b Ha Hb) E.
+    - use_run (run_shr sebc a b Ha Hb) E.
+    - use_run (run_sar sebc a b Ha Hb) E.
+  Qed.
+
+  Lemma run2_total sebc o a b : wf ev eb a -> wf ev eb b ->
+    (o = SIGNEXTEND -> exists s, popi a = Cv s) ->
+    exists r, run2 sebc o a b = Ok r.
+  Proof.
+    intros Ha Hb Hs.
+    destruct o;
+      try (match goal with
+           | |- exists r, run2 _ ?o _ _ = _ => idtac
+           end).
+    - destruct (run_add sebc a b Ha Hb) as [r [E _]]; eauto.
+    - destruct (run_mul sebc a b Ha Hb) as [r [E _]]; eauto.
+    - destruct (run_sub sebc a b Ha Hb) as [r [E _]]; eauto.
+    - destruct (run_div sebc a b Ha Hb) as [r [E _]]; eauto.
+    - destruct (run_sdiv sebc a b Ha Hb) as [r [E _]]; eauto.
+    - destruct (run_mod sebc a b Ha Hb) as [r [E _]]; eauto.
+    - destruct (run_smod sebc a b Ha Hb) as [r [E _]]; eauto.
+    - destruct (run_exp sebc a b Ha Hb) as [r [E _]]; eauto.
+    - destruct (Hs eq_refl) as [s P]. destruct (run_signextend sebc a b s Ha Hb P) as [r [E _]]; eauto.
+    - destruct (run_lt sebc a b Ha Hb) as [r [E _]]; eauto.
+    - destruct (run_gt sebc a b Ha Hb) as [r [E _]]; eauto.
+    - destruct (run_slt sebc a b Ha Hb) as [r [E _]]; eauto.
+    - destruct (run_sgt sebc a b Ha Hb) as [r [E _]]; eauto.
+    - destruct (run_eq sebc a b Ha Hb) as [r [E _]]; eauto.
+    - destruct (run_and sebc a b Ha Hb) as [r [E _]]; eauto.
+    - destruct (run_or sebc a b Ha Hb) as [r [E _]]; eauto.
+    - destruct (run_xor sebc a b Ha Hb) as [r [E _]]; eauto.
+    - destruct (run_byte sebc a b Ha Hb) as [r [E _]]; eauto.
+    - destruct (run_shl sebc a b Ha Hb) as [r [E _]]; eauto.
+    - destruct (run_shr sebc a b Ha Hb) as [r [E _]]; eauto.
+    - destruct (run_sar sebc a b Ha Hb) as [r [E _]]; eauto.
+  Qed.
+
+  (* the denotation of a result depends only on the denotations of the operands: every concrete
+     fast path agrees with the symbolic path, in every mix of representations *)
+  Lemma run2_fast_agree sebc o a b a' b' r r' :
+    wf ev eb a -> wf ev eb b -> wf ev eb a' -> wf ev eb b' ->
+    dn a = dn a' -> dn b = dn b' ->
+    run2 sebc o a b = Ok r -> run2 sebc o a' b' = Ok r' -> dn r = dn r'.
+  Proof.
+    intros Ha Hb Ha' Hb' Ea Eb E E'.
+    rewrite (run2_spec sebc o a b r Ha Hb E), (run2_spec sebc o a' b' r' Ha' Hb' E'), Ea, Eb. reflexivity.
+  Qed.
+
+  Lemma run3_fast_agree o a b c a' b' c' r r' :
+    wf ev eb a -> wf ev eb b -> wf ev eb c -> wf ev eb a' -> wf ev eb b' -> wf ev eb c' ->
+    dn a = dn a' -> dn b = dn b' -> dn c = dn c' ->
+    run3 o a b c = Ok r -> run3 o a' b' c' = Ok r' -> dn r = dn r'.
+  Proof.
+    intros Ha Hb Hc Ha' Hb' Hc' Ea Eb Ec E E'.
+    assert (Z1 : all_con_zero (popi a) (popi b) (popi c) = false).
+    { destruct (all_con_zero (popi a) (popi b) (popi c)) eqn:Z; [|reflexivity].
+      rewrite (run_modzero_crash o a b c Z) in E. discriminate. }
+    assert (Z2 : all_con_zero (popi a') (popi b') (popi c') = false).
+    { destruct (all_con_zero (popi a') (popi b') (popi c')) eqn:Z; [|reflexivity].
+      rewrite (run_modzero_crash o a' b' c' Z) in E'. discriminate. }
+    destruct o.
+    - destruct (run_addmod a b c Ha Hb Hc Z1) as [s [F D]]. rewrite F in E; injection E as <-.
+      destruct (run_addmod a' b' c' Ha' Hb' Hc' Z2) as [s' [F' D']]. rewrite F' in E'; injection E' as <-.
+      rewrite D, D', Ea, Eb, Ec. reflexivity.
+    - destruct (run_mulmod a b c Ha Hb Hc Z1) as [s [F D]]. rewrite F in E; injection E as <-.
+      destruct (run_mulmod a' b' c' Ha' Hb' Hc' Z2) as [s' [F' D']]. rewrite F' in E'; injection E' as <-.
+      rewrite D, D', Ea, Eb, Ec. reflexivity.
+  Qed.
+
 End WithEnv.
+
+(* ================================================================ defects of the current tree *)
+
+(* F1: NOT on a Bool-typed stack top is logical negation *)
+Lemma not_bool_wrong : forall ev eb p,
+  run1 NOT (VBool p) = Ok (VBool (bl_not p)) /\
+  denote ev eb (VBool (bl_not p)) = b2w (negb (bl_den ev eb p)) /\
+  evm_not (denote ev eb (VBool p)) = W - 1 - b2w (bl_den ev eb p).
+Proof.
+  intros ev eb p. split; [reflexivity|]. split; [|reflexivity].
+  cbn [denote]. unfold bl_not. rewrite bl_is_zero_den. reflexivity.
+Qed.
+
+Lemma not_refuted :
+  ~ (forall ev eb a, wf ev eb a ->
+       exists r, run1 NOT a = Ok r /\ denote ev eb r = evm_not (denote ev eb a)).
+Proof.
+  intros H. destruct (H (fun _ => 0) (fun _ => false) (VBool (BC true)) I) as [r [E D]].
+  cbn in E. injection E as <-. vm_compute in D. discriminate.
+Qed.
+
+(* F15: all-concrete ADDMOD / MULMOD with modulus zero *)
+Lemma modzero_refuted : forall o,
+  ~ (forall ev eb a b c, wf ev eb a -> wf ev eb b -> wf ev eb c -> exists r, run3 o a b c = Ok r).
+Proof.
+  intros o H.
+  assert (W0 : forall v, 0 <= v < 2 ^ 256 -> wf (fun _ => 0) (fun _ => false) (VBV (Cv v))) by (intros v Hv; exact Hv).
+  destruct (H (fun _ => 0) (fun _ => false) (VBV (Cv 5)) (VBV (Cv 6)) (VBV (Cv 0))) as [r E];
+    try (apply W0; split; [lia|reflexivity]).
+  destruct o; discriminate E.
+Qed.
+
+(* F2: concrete EXP materialises the unreduced power *)
+Lemma log2_pow_lower x y : 1 < x -> 0 <= y -> y * Z.log2 x <= Z.log2 (x ^ y).
+Proof.
+  intros Hx Hy. pose proof (Z.log2_nonneg x) as Hl.
+  pose proof (Z.log2_spec x ltac:(lia)) as [Hlo _].
+  assert (H : (2 ^ Z.log2 x) ^ y <= x ^ y).
+  { apply Z.pow_le_mono_l. split; [apply Z.lt_le_incl, pow2_pos; assumption|assumption]. }
+  rewrite <- Z.pow_mul_r in H by lia.
+  apply Z.log2_le_mono in H. rewrite Z.log2_pow2 in H by nia. lia.
+Qed.
+
+Lemma exp_not_prompt :
+  exists a e, 0 <= a < 2 ^ 256 /\ 0 <= e < 2 ^ 256 /\
+    bv_exp 256 true true 2 (Cv a) (Cv e) = Ok (mk_int 256 (a ^ e)) /\
+    2 ^ 64 <= Z.log2 (a ^ e).
+Proof.
+  exists 2, (2 ^ 64). split; [split; [lia|reflexivity]|]. split; [split; [lia|reflexivity]|].
+  split.
+  - apply exp_concrete_path; intros H; discriminate H.
+  - pose proof (log2_pow_lower 2 (2 ^ 64) ltac:(lia) ltac:(lia)) as H.
+    change (Z.log2 2) with 1 in H. rewrite Z.mul_1_r in H. exact H.
+Qed.
+
+Lemma exp_work_lower x y : 1 < x -> 1 < y ->
+  exp_work (Cv x) (Cv y) = y * Z.log2 x /\ exp_work (Cv x) (Cv y) <= Z.log2 (x ^ y).
+Proof.
+  intros Hx Hy. unfold exp_work.
+  destruct (Z.leb_spec y 1); [lia|]. destruct (Z.leb_spec x 1); [lia|]. cbn [orb].
+  split; [reflexivity|apply log2_pow_lower; lia].
+Qed.
+
+(* latent: with abstraction=None (never used by sevm.py) a symbolic zero divisor gives the
+   SMT-LIB value 2^n - 1, and sdiv raises TypeError *)
+Lemma div_noabs_latent :
+  exists ev eb a b, bvwf ev eb 256 a /\ bvwf ev eb 256 b /\
+    bv_den ev eb (bv_div 256 false a b) <> evm_div (bv_den ev eb a) (bv_den ev eb b).
+Proof.
+  exists (fun id => if id =? 0 then 7 else 0), (fun _ => false), (Sv (TVar 0)), (Sv (TVar 1)).
+  split; [split; [cbn; lia|reflexivity]|]. split; [split; [cbn; lia|reflexivity]|].
+  vm_compute. discriminate.
+Qed.
+
+Lemma sdiv_noabs_latent : forall n t u, bv_sdiv n false (Sv t) (Sv u) = Err ETypeError.
+Proof. reflexivity. Qed.
+
+(* ================================================================ statements over [in_word (denote a)] *)
+Lemma wf_iw ev eb a : in_word (denote ev eb a) -> wf ev eb a.
+Proof. destruct a as [x|p]; cbn [wf denote]; [exact (fun H => H)|exact (fun _ => I)]. Qed.
+
+Lemma P_ADD ev eb sebc a b : in_word (denote ev eb a) -> in_word (denote ev eb b) ->
+  exists r, run2 sebc ADD a b = Ok r /\ denote ev eb r = evm_add (denote ev eb a) (denote ev eb b).
+Proof. intros Ha Hb. apply run_add; apply wf_iw; assumption. Qed.
+
+Lemma P_MUL ev eb sebc a b : in_word (denote ev eb a) -> in_word (denote ev eb b) ->
+  exists r, run2 sebc MUL a b = Ok r /\ denote ev eb r = evm_mul (denote ev eb a) (denote ev eb b).
+Proof. intros Ha Hb. apply run_mul; apply wf_iw; assumption. Qed.
+
+Lemma P_SUB ev eb sebc a b : in_word (denote ev eb a) -> in_word (denote ev eb b) ->
+  exists r, run2 sebc SUB a b = Ok r /\ denote ev eb r = evm_sub (denote ev eb a) (denote ev eb b).
+Proof. intros Ha Hb. apply run_sub; apply wf_iw; assumption. Qed.
+
+Lemma P_DIV ev eb sebc a b : in_word (denote ev eb a) -> in_word (denote ev eb b) ->
+  exists r, run2 sebc DIV a b = Ok r /\ denote ev eb r = evm_div (denote ev eb a) (denote ev eb b).
+Proof. intros Ha Hb. apply run_div; apply wf_iw; assumption. Qed.
+
+Lemma P_SDIV ev eb sebc a b : in_word (denote ev eb a) -> in_word (denote ev eb b) ->
+  exists r, run2 sebc SDIV a b = Ok r /\ denote ev eb r = evm_sdiv (denote ev eb a) (denote ev eb b).
+Proof. intros Ha Hb. apply run_sdiv; apply wf_iw; assumption. Qed.
+
+Lemma P_MOD ev eb sebc a b : in_word (denote ev eb a) -> in_word (denote ev eb b) ->
+  exists r, run2 sebc MOD a b = Ok r /\ denote ev eb r = evm_mod (denote ev eb a) (denote ev eb b).
+Proof. intros Ha Hb. apply run_mod; apply wf_iw; assumption. Qed.
+
+Lemma P_SMOD ev eb sebc a b : in_word (denote ev eb a) -> in_word (denote ev eb b) ->
+  exists r, run2 sebc SMOD a b = Ok r /\ denote ev eb r = evm_smod (denote ev eb a) (denote ev eb b).
+Proof. intros Ha Hb. apply run_smod; apply wf_iw; assumption. Qed.
+
+Lemma P_EXP ev eb sebc a b : in_word (denote ev eb a) -> in_word (denote ev eb b) ->
+  exists r, run2 sebc EXP a b = Ok r /\ denote ev eb r = evm_exp (denote ev eb a) (denote ev eb b).
+Proof. intros Ha Hb. apply run_exp; apply wf_iw; assumption. Qed.
+
+Lemma P_LT ev eb sebc a b : in_word (denote ev eb a) -> in_word (denote ev eb b) ->
+  exists r, run2 sebc LT a b = Ok r /\ denote ev eb r = evm_lt (denote ev eb a) (denote ev eb b).
+Proof. intros Ha Hb. apply run_lt; apply wf_iw; assumption. Qed.
+
+Lemma P_GT ev eb sebc a b : in_word (denote ev eb a) -> in_word (denote ev eb b) ->
+  exists r, run2 sebc GT a b = Ok r /\ denote ev eb r = evm_gt (denote ev eb a) (denote ev eb b).
+Proof. intros Ha Hb. apply run_gt; apply wf_iw; assumption. Qed.
+
+Lemma P_SLT ev eb sebc a b : in_word (denote ev eb a) -> in_word (denote ev eb b) ->
+  exists r, run2 sebc SLT a b = Ok r /\ denote ev eb r = evm_slt (denote ev eb a) (denote ev eb b).
+Proof. intros Ha Hb. apply run_slt; apply wf_iw; assumption. Qed.
+
+Lemma P_SGT ev eb sebc a b : in_word (denote ev eb a) -> in_word (denote ev eb b) ->
+  exists r, run2 sebc SGT a b = Ok r /\ denote ev eb r = evm_sgt (denote ev eb a) (denote ev eb b).
+Proof. intros Ha Hb. apply run_sgt; apply wf_iw; assumption. Qed.
+
+Lemma P_EQ ev eb sebc a b : in_word (denote ev eb a) -> in_word (denote ev eb b) ->
+  exists r, run2 sebc EQ a b = Ok r /\ denote ev eb r = evm_eq (denote ev eb a) (denote ev eb b).
+Proof. intros Ha Hb. apply run_eq; apply wf_iw; assumption. Qed.
+
+Lemma P_AND ev eb sebc a b : in_word (denote ev eb a) -> in_word (denote ev eb b) ->
+  exists r, run2 sebc AND a b = Ok r /\ denote ev eb r = evm_and (denote ev eb a) (denote ev eb b).
+Proof. intros Ha Hb. apply run_and; apply wf_iw; assumption. Qed.
+
+Lemma P_OR ev eb sebc a b : in_word (denote ev eb a) -> in_word (denote ev eb b) ->
+  exists r, run2 sebc OR a b = Ok r /\ denote ev eb r = evm_or (denote ev eb a) (denote ev eb b).
+Proof. intros Ha Hb. apply run_or; apply wf_iw; assumption. Qed.
+
+Lemma P_XOR ev eb sebc a b : in_word (denote ev eb a) -> in_word (denote ev eb b) ->
+  exists r, run2 sebc XOR a b = Ok r /\ denote ev eb r = evm_xor (denote ev eb a) (denote ev eb b).
+Proof. intros Ha Hb. apply run_xor; apply wf_iw; assumption. Qed.
+
+Lemma P_BYTE ev eb sebc a b : in_word (denote ev eb a) -> in_word (denote ev eb b) ->
+  exists r, run2 sebc BYTE a b = Ok r /\ denote ev eb r = evm_byte (denote ev eb a) (denote ev eb b).
+Proof. intros Ha Hb. apply run_byte; apply wf_iw; assumption. Qed.
+
+Lemma P_SHL ev eb sebc a b : in_word (denote ev eb a) -> in_word (denote ev eb b) ->
+  exists r, run2 sebc SHL a b = Ok r /\ denote ev eb r = evm_shl (denote ev eb a) (denote ev eb b).
+Proof. intros Ha Hb. apply run_shl; apply wf_iw; assumption. Qed.
+
+Lemma P_SHR ev eb sebc a b : in_word (denote ev eb a) -> in_word (denote ev eb b) ->
+  exists r, run2 sebc SHR a b = Ok r /\ denote ev eb r = evm_shr (denote ev eb a) (denote ev eb b).
+Proof. intros Ha Hb. apply run_shr; apply wf_iw; assumption. Qed.
+
+Lemma P_SAR ev eb sebc a b : in_word (denote ev eb a) -> in_word (denote ev eb b) ->
+  exists r, run2 sebc SAR a b = Ok r /\ denote ev eb r = evm_sar (denote ev eb a) (denote ev eb b).
+Proof. intros Ha Hb. apply run_sar; apply wf_iw; assumption. Qed.
+
+Lemma P_SIGNEXTEND ev eb sebc a b s : in_word (denote ev eb a) -> in_word (denote ev eb b) -> popi a = Cv s ->
+  exists r, run2 sebc SIGNEXTEND a b = Ok r /\ denote ev eb r = evm_signextend (denote ev eb a) (denote ev eb b).
+Proof. intros Ha Hb E. apply (run_signextend ev eb sebc a b s); try apply wf_iw; assumption. Qed.
+
+Lemma P_ISZERO ev eb a : in_word (denote ev eb a) ->
+  exists r, run1 ISZERO a = Ok r /\ denote ev eb r = evm_iszero (denote ev eb a).
+Proof. intros Ha. apply run_iszero; apply wf_iw; assumption. Qed.
+
+Lemma P_NOT_bv ev eb x : in_word (bv_den ev eb x) ->
+  exists r, run1 NOT (VBV x) = Ok r /\ denote ev eb r = evm_not (bv_den ev eb x).
+Proof. intros Hx. apply run_not_bv. exact Hx. Qed.
+
+Lemma P_NOT_refuted :
+  ~ (forall ev eb a, in_word (denote ev eb a) ->
+       exists r, run1 NOT a = Ok r /\ denote ev eb r = evm_not (denote ev eb a)).
+Proof.
+  intros H. apply not_refuted. intros ev eb a Ha. apply (H ev eb a).
+  destruct a as [x|p]; cbn [wf denote] in *; [exact Ha|]. destruct (bl_den ev eb p); split; try reflexivity; cbn; lia.
+Qed.
+
+Lemma P_ADDMOD ev eb a b c : in_word (denote ev eb a) -> in_word (denote ev eb b) -> in_word (denote ev eb c) ->
+  (match popi a, popi b, popi c with Cv _, Cv _, Cv z => z =? 0 | _, _, _ => false end) = false ->
+  exists r, run3 ADDMOD a b c = Ok r /\ denote ev eb r = evm_addmod (denote ev eb a) (denote ev eb b) (denote ev eb c).
+Proof. intros Ha Hb Hc Hz. apply run_addmod; try apply wf_iw; assumption. Qed.
+
+Lemma P_MULMOD ev eb a b c : in_word (denote ev eb a) -> in_word (denote ev eb b) -> in_word (denote ev eb c) ->
+  (match popi a, popi b, popi c with Cv _, Cv _, Cv z => z =? 0 | _, _, _ => false end) = false ->
+  exists r, run3 MULMOD a b c = Ok r /\ denote ev eb r = evm_mulmod (denote ev eb a) (denote ev eb b) (denote ev eb c).
+Proof. intros Ha Hb Hc Hz. apply run_mulmod; try apply wf_iw; assumption. Qed.
+
+Lemma P_modzero_crash o a b c :
+  (match popi a, popi b, popi c with Cv _, Cv _, Cv z => z =? 0 | _, _, _ => false end) = true ->
+  run3 o a b c = Err EZeroDivision.
+Proof. exact (run_modzero_crash o a b c). Qed.
+
+Lemma P_modzero_refuted : forall o,
+  ~ (forall ev eb a b c, in_word (denote ev eb a) -> in_word (denote ev eb b) -> in_word (denote ev eb c) ->
+       exists r, run3 o a b c = Ok r).
+Proof.
+  intros o H. apply (modzero_refuted o). intros ev eb a b c Ha Hb Hc.
+  assert (IW : forall v, wf ev eb v -> in_word (denote ev eb v)).
+  { intros [x|p] Hv; cbn [wf denote] in *; [exact Hv|]. destruct (bl_den ev eb p); split; try reflexivity; cbn; lia. }
+  apply (H ev eb a b c); apply IW; assumption.
+Qed.
+
+Lemma P_total ev eb sebc o a b : in_word (denote ev eb a) -> in_word (denote ev eb b) ->
+  (o = SIGNEXTEND -> exists s, popi a = Cv s) ->
+  exists r, run2 sebc o a b = Ok r.
+Proof. intros Ha Hb Hs. apply (run2_total ev eb); try apply wf_iw; assumption. Qed.
+
+Lemma P_fast_agree ev eb sebc o a b a' b' r r' :
+  in_word (denote ev eb a) -> in_word (denote ev eb b) -> in_word (denote ev eb a') -> in_word (denote ev eb b') ->
+  denote ev eb a = denote ev eb a' -> denote ev eb b = denote ev eb b' ->
+  run2 sebc o a b = Ok r -> run2 sebc o a' b' = Ok r' -> denote ev eb r = denote ev eb r'.
+Proof. intros. eapply (run2_fast_agree ev eb sebc o a b a' b'); try apply wf_iw; eassumption. Qed.
+
+Lemma P_fast_agree3 ev eb o a b c a' b' c' r r' :
+  in_word (denote ev eb a) -> in_word (denote ev eb b) -> in_word (denote ev eb c) ->
+  in_word (denote ev eb a') -> in_word (denote ev eb b') -> in_word (denote ev eb c') ->
+  denote ev eb a = denote ev eb a' -> denote ev eb b = denote ev eb b' -> denote ev eb c = denote ev eb c' ->
+  run3 o a b c = Ok r -> run3 o a' b' c' = Ok r' -> denote ev eb r = denote ev eb r'.
+Proof. intros. eapply (run3_fast_agree ev eb o a b c a' b' c'); try apply wf_iw; eassumption. Qed.
+
+Lemma P_axioms ev eb o a b c : in_word (denote ev eb a) -> in_word (denote ev eb b) ->
+  In c (arith_axioms o a b) -> beval ev eb c = true.
+Proof. intros Ha Hb. apply arith_axioms_valid; apply wf_iw; assumption. Qed.
